@@ -19,6 +19,7 @@ import (
 	"fmt"
 	"iter"
 	"log/slog"
+	"math/rand/v2"
 	"os"
 	"os/exec"
 	"path/filepath"
@@ -77,6 +78,20 @@ func runC27(c *Ctx) {
 			c.violation("c27-nil-logger", "NewBloomSearchEngine: with Config.Logger = nil the logger is "+nilLoggerText+", not slog.New(slog.DiscardHandler)", map[string]any{"expr": nilLoggerText})
 		}
 	}
+
+	// ---- the translator's constants against the compiled package (Generated/Consts.v is what other
+	// families' theorems are parametric in; a translator that misreads a constant shows up here)
+	consts := bs.VerifConsts()
+	consts["LengthPrefixSize"], consts["HashSize"], consts["VersionPrefixSize"] = bs.LengthPrefixSize, bs.HashSize, bs.VersionPrefixSize
+	consts["FileVersion"] = int64(bs.FileVersion)
+	probe, err := bs.NewBloomSearchEngine(bs.DefaultBloomSearchEngineConfig(), bs.NewMemoryMetaStore(), newMemDataStore())
+	must(err)
+	consts["flush_chan_cap"] = int64(probe.VerifFlushChanCap())
+	for _, name := range sortedKeys(consts) {
+		sh.add(c, fmt.Sprintf("LConst %s (%d)%%Z", coqStringLit(name), consts[name]), map[string]any{"kind": "const", "name": name, "runtime_value": consts[name]})
+		c.dist("static", "constants")
+	}
+	sh.add(c, "LMagic "+coqS(bs.MagicBytes), map[string]any{"kind": "const", "name": "MagicBytes", "runtime_value": bs.MagicBytes})
 
 	// ---- dynamic
 	exe, err := os.Executable()
@@ -199,7 +214,7 @@ func runC27Child(c *Ctx) {
 	var recs []c27Record
 	scales := []int{1}
 	if c.thorough() {
-		scales = []int{1, 4, 25}
+		scales = []int{1, 2, 4, 8, 16, 32}
 	}
 	for _, scale := range scales {
 		c27Scale = scale
@@ -600,7 +615,11 @@ func c27Scenarios(c *Ctx) []c27Scenario {
 				must(r.eng.IngestRows(context.Background(), c27Rows(0, 5), make(chan error))) // nobody receives
 			}
 			for i := 0; i < 4; i++ {
-				must(r.eng.IngestRows(context.Background(), c27Rows(10*i+100, 4), make(chan error, 1)))
+				// bounded wait: with another pipeline shape (e.g. an unbuffered flush channel) the
+				// ingest buffer may be full by now; the history goes on either way
+				ictx, icancel := context.WithTimeout(context.Background(), 500*time.Millisecond)
+				_ = r.eng.IngestRows(ictx, c27Rows(10*i+100, 4), make(chan error, 1))
+				icancel()
 				wg.Add(1)
 				go func(i int) {
 					defer wg.Done()
@@ -804,5 +823,128 @@ func c27Scenarios(c *Ctx) []c27Scenario {
 		serr := r.stop(10 * time.Second)
 		return fmt.Sprintf("rows=%d query_errors=%d stop=%v", rows, qerrs, serr), false
 	})
+	// 10. random histories: operation sequences with faults, corruption and missing filters drawn from the seed
+	for i := 0; i < c.pick(500, 1500); i++ {
+		seed1, seed2 := c.rng.Uint64(), c.rng.Uint64()
+		add("random", fmt.Sprintf("random history %d", i), func(l *slog.Logger) (string, bool) {
+			return c27RandomHistory(rand.New(rand.NewPCG(seed1, seed2)), l)
+		})
+	}
 	return out
+}
+
+// c27RandomHistory runs one random operation sequence. The same (seed1, seed2) gives the same
+// sequence for the recording run and for the nil-logger run.
+func c27RandomHistory(rng *rand.Rand, l *slog.Logger) (string, bool) {
+	comps := []bs.CompressionType{bs.CompressionNone, bs.CompressionSnappy, bs.CompressionZstd}
+	mutate := func(cfg *bs.BloomSearchEngineConfig) {
+		cfg.RowDataCompression = comps[rng.IntN(3)]
+		cfg.MaxBufferedRows = 3 + rng.IntN(40)
+		cfg.MaxRowGroupRows = 2 + rng.IntN(30)
+		cfg.MaxQueryConcurrency = 1 + rng.IntN(4)
+		cfg.BloomFalsePositiveRate = []float64{0.5, 0.1, 0.01, 0.001}[rng.IntN(4)]
+	}
+	r := newC27Rig(l, mutate)
+	r.store.withAbort = rng.IntN(2) == 0
+	r.eng.Start()
+	kinds := []string{"CreateFile", "Write", "Close", "Abort", "Tombstone", "OpenFile", "Read"}
+	errs, base := 0, 0
+	note := func(err error) {
+		if err != nil {
+			errs++
+		}
+	}
+	armFault := func() {
+		kind, nth := kinds[rng.IntN(len(kinds))], rng.IntN(4)
+		r.store.mu.Lock()
+		from := r.store.kindCount[kind]
+		r.store.mu.Unlock()
+		r.store.fault = func(k string, n int, _ string) error {
+			if k == kind && n-from == nth {
+				return errInjected
+			}
+			return nil
+		}
+	}
+	var log []string
+	nOps := 4 + rng.IntN(12)
+	for op := 0; op < nOps; op++ {
+		if rng.IntN(3) == 0 {
+			armFault()
+		}
+		if rng.IntN(8) == 0 {
+			r.meta.updateErr = func(int) error { return errInjected }
+		}
+		switch k := rng.IntN(9); k {
+		case 0, 1, 2:
+			log = append(log, "flush")
+			note(r.ingestFlush(base, 1+rng.IntN(12)))
+			base += 20
+		case 3:
+			log = append(log, "ingest-nil-done")
+			note(r.eng.IngestRows(context.Background(), c27Rows(base, 1+rng.IntN(6)), nil))
+			base += 20
+		case 4, 5:
+			log = append(log, "query")
+			qs := c27Queries()
+			ctx, cancel := context.WithCancel(context.Background())
+			if rng.IntN(6) == 0 {
+				cancel()
+			}
+			_, err := r.drain(ctx, qs[rng.IntN(len(qs))])
+			cancel()
+			note(err)
+		case 6:
+			log = append(log, "merge")
+			_, err := r.eng.Merge(context.Background())
+			note(err)
+		case 7:
+			log = append(log, "corrupt")
+			r.store.mu.Lock()
+			names := sortedKeys(r.store.files)
+			if len(names) > 0 {
+				name := names[rng.IntN(len(names))]
+				data := append([]byte(nil), r.store.files[name]...)
+				switch {
+				case len(data) == 0:
+				case rng.IntN(3) == 0:
+					data = data[:rng.IntN(len(data))]
+				default:
+					data[rng.IntN(len(data))] ^= byte(1 + rng.IntN(255))
+				}
+				r.store.files[name] = data
+			}
+			r.store.mu.Unlock()
+		case 8:
+			log = append(log, "strip-filters")
+			fileLevel, blockLevel := rng.IntN(2) == 0, rng.IntN(2) == 0
+			r.meta.rewrite = func(f *bs.MaybeFile) {
+				if fileLevel {
+					f.Metadata.BloomFilters = bs.BloomFilters{}
+				}
+				if blockLevel {
+					blocks := append([]bs.DataBlockMetadata(nil), f.Metadata.DataBlocks...)
+					for i := range blocks {
+						if i%2 == 0 {
+							blocks[i].BloomFilterSize, blocks[i].BloomFilterOffset = 0, 0
+						}
+					}
+					f.Metadata.DataBlocks = blocks
+				}
+			}
+		}
+		r.store.fault, r.meta.updateErr = nil, nil
+	}
+	var serr error
+	if rng.IntN(4) == 0 {
+		must(r.eng.IngestRows(context.Background(), c27Rows(base, 3), nil))
+		ctx, cancel := context.WithDeadline(context.Background(), time.Now().Add(-time.Second))
+		serr = r.eng.Stop(ctx)
+		cancel()
+		time.Sleep(5 * time.Millisecond)
+	} else {
+		serr = r.stop(10 * time.Second)
+	}
+	note(serr)
+	return fmt.Sprintf("ops=%s errors=%d stop=%v", strings.Join(log, ","), errs, serr), errs > 0
 }
